@@ -409,7 +409,19 @@ impl ExpandedField<'_> {
         let is_required = self
             .field_type_qualifiers
             .contains(&GraphqlTypeQualifier::Required);
-        let id_deserialize_with = if is_id && is_required {
+        let is_list = self
+            .field_type_qualifiers
+            .contains(&GraphqlTypeQualifier::List);
+        let id_deserialize_with = if is_id && is_list {
+            // `default` only when the list itself is nullable (see below).
+            let default = match self.field_type_qualifiers.first() {
+                Some(GraphqlTypeQualifier::Required) => None,
+                _ => Some(quote!(default,)),
+            };
+            Some(
+                quote!(#[serde(#default deserialize_with = "graphql_client::serde_with::deserialize_nested_id")]),
+            )
+        } else if is_id && is_required {
             Some(quote!(#[serde(deserialize_with = "graphql_client::serde_with::deserialize_id")]))
         } else if is_id {
             // `default`: with `deserialize_with`, serde no longer treats a missing key as `None`.
